@@ -118,7 +118,10 @@ TRun ==
   /\ prevU' = NoPrev /\ edited' = FALSE
   /\ Advance(RunTags)
 
-TPanic == /\ e.op = "panic" /\ UNCHANGED <<qVars, prevU, edited>> /\ Advance({<<"C17", "panic">>})
+TPanic == /\ e.op = "panic" /\ UNCHANGED <<qVars, prevU, edited>>
+          /\ Advance({<<"C17", "panic">>, <<"C07", "panic">>}
+                      \cup (IF Has(e, "where") /\ e.where = "convert"
+                              THEN {<<"C08", "panic">>, <<"C09", "panic">>, <<"C19", "panic">>} ELSE {}))
 
 TNext == l <= NRec /\ (TMeta \/ TNew \/ TAllow \/ TForbid \/ TConvert \/ TRun \/ TPanic)
 TInit == QInit /\ l = 1 /\ dead = {} /\ prevU = NoPrev /\ edited = FALSE /\ FlagInit
